@@ -145,6 +145,9 @@ func feq(a, b reflect.Value, at string, depth int) string {
 			if !f.IsExported() || skipField(t.Name(), f.Name) {
 				continue
 			}
+			if t.Name() == "EmptyStmt" && f.Name == "Implicit" {
+				continue // `L: ;` and `L:` before a closing brace are the same statement
+			}
 			if d := feq(a.Field(i), b.Field(i), at+"."+f.Name, depth+1); d != "" {
 				return d
 			}
